@@ -27,9 +27,9 @@ class C09(core.Check):
         'cycle:2', 'cycle:3', 'cycle:4', 'use-before-define', 'double:isa+isa', 'double:isa+cli', 'double:isa+define',
         'double:cli+cli', 'double:cli+define', 'double:define+define', 'expands-to:register', 'expands-to:label',
         'expands-to:expression', 'source:isa', 'source:cli', 'source:define', 'unparenthesised-expression-value', 'double:identical-text',
-        'quoted-value-used', 'quoted-value-from:isa', 'quoted-value-from:cli', 'quoted-value-from:define']}
+        'quoted-value-used', 'define-while-muted', 'quoted-value-from:isa', 'quoted-value-from:cli', 'quoted-value-from:define']}
 
-    def build(self, rng, mode, quoted=None):
+    def build(self, rng, mode, quoted=None, muted=None):
         tags = set()
         bases = list(BASES)
         rng.shuffle(bases)
@@ -193,7 +193,14 @@ class C09(core.Check):
         for i in range(n_probe):
             if pending and rng.random() < 0.5:
                 nm, txt = pending.pop(0)
+                muted_def = (muted if muted is not None else rng.random() < 0.2)
+                if muted_def:
+                    # muting silences bytes, not definitions
+                    out.append('#mute')
+                    tags.add('define-while-muted')
                 out.append(f'#define {nm} {txt}' if txt != '' else f'#define {nm}')
+                if muted_def:
+                    out.append(rng.choice(['#unmute', '#emit']))
                 if nm in table:
                     pass   # double definition: rejection expected
                 table[nm] = txt
@@ -282,7 +289,7 @@ class C09(core.Check):
         for i in range(n_pre + n):
             rng = core.rng_for(0 if i < n_pre else seed, self.pid, i)
             mode = ['plain', 'plain', 'cycle', 'double'][i % 4] if i < n_pre else rng.choice(['plain', 'plain', 'plain', 'cycle', 'double'])
-            c = self.build(rng, mode, quoted=(i % 3 == 0) if i < n_pre else None)
+            c = self.build(rng, mode, quoted=(i % 3 == 0) if i < n_pre else None, muted=(i % 5 < 2) if i < n_pre else None)
             if c:
                 yield c
 
